@@ -23,6 +23,7 @@ import (
 	"os"
 	"path/filepath"
 	"reflect"
+	"runtime"
 	"sort"
 	"strings"
 	"sync/atomic"
@@ -281,7 +282,7 @@ func Run(rc *core.RunCtx) {
 		return fmt.Errorf("recovered:%v", err)
 	})
 
-	fault := []string{"none", "truncate-eof", "truncate-err", "rechunk", "content-length", "corrupt", "json-prefix", "invalid-doc", "opname"}[t.Choose(9, "fault")]
+	fault := []string{"none", "truncate-eof", "truncate-err", "rechunk", "content-length", "corrupt", "json-prefix", "invalid-doc", "opname", "after-wrong-shape"}[t.Choose(10, "fault")]
 	// a document cache, as handler.NewDefaultServer configures one
 	if t.Bool(1, 2, "query-cache") {
 		srv.SetQueryCache(lru.New[*ast.QueryDocument](4))
@@ -296,6 +297,18 @@ func Run(rc *core.RunCtx) {
 	}
 	if base.OpName != "" {
 		ops["operationName"] = base.OpName
+	}
+	noQuery := false
+	if fault == "after-wrong-shape" {
+		if kind != "post" {
+			fault = "none"
+		} else {
+			// the request that is judged carries no query at all; it follows (further down) a
+			// request whose body is valid JSON of the wrong shape
+			ops = []map[string]any{{}, {"variables": map[string]any{}}, {"operationName": "Q"}, {"extensions": map[string]any{}}}[t.Choose(4, "empty-shape")]
+			noQuery = true
+			faultDesc = "no query, after a wrong-shape body"
+		}
 	}
 	if fault == "opname" {
 		// an operationName that is almost, but not exactly, the name of an operation in the
@@ -556,6 +569,22 @@ func Run(rc *core.RunCtx) {
 	for k, vs := range hdr {
 		r.Header[k] = vs
 	}
+	if fault == "after-wrong-shape" {
+		// the transport's pool of request objects is process-global: start from an empty one, so
+		// that this run (and its replay) does not depend on its predecessors in the process
+		runtime.GC()
+		runtime.GC()
+		pre := []string{
+			`{"query":"{ hello maybe }","variables":{"id":"1"},"operationName":7}`,
+			`{"query":"query Q($id: ID!) { user(id: $id) { id } }","operationName":"Q","variables":{"id":"1"},"extensions":5}`,
+			`{"query":"{ me { id } }","variables":"x"}`,
+		}[t.Choose(3, "wrong-shape")]
+		r0 := httptest.NewRequest("POST", "/query", strings.NewReader(pre))
+		r0.Header.Set("Content-Type", "application/json")
+		srv.ServeHTTP(httptest.NewRecorder(), r0)
+		resolverCalls.Store(0)
+		faultDesc += " " + pre
+	}
 	rec := httptest.NewRecorder()
 	srv.ServeHTTP(rec, r)
 	// the same bytes again (a client retrying): the second answer is the one judged below, the
@@ -615,6 +644,10 @@ func Run(rc *core.RunCtx) {
 		} else {
 			ok, why = wellFormedResponse(out.Body)
 		}
+	}
+	if noQuery && resolverCalls.Load() > 0 {
+		rc.Fail("executed-without-a-query", kind, "the request carries no query, yet %d resolver calls were made\n%s", resolverCalls.Load(), desc())
+		return
 	}
 	if !ok {
 		rc.Fail("malformed-error-response", kind, "%s\n%s", why, desc())
